@@ -456,6 +456,10 @@ class RouteCQC:
             two_qubit_ops_ints[timestep], key=lambda op: mm.dist_on_device(*op, undirected=True)
         )
         path = mm.shortest_path(*furthest_op, undirected=True)
+        if len(path) == 2:
+            # Already adjacent in the undirected sense but not executable in this direction:
+            # exchange the two qubits so that the loop makes progress.
+            return ((path[0], path[1]),)
         return tuple((path[0], path[i + 1]) for i in range(len(path) - 2))
 
     @classmethod
